@@ -63,7 +63,7 @@ m = {
  "engines": [{"name": "simrt", "path": "/verif/sim", "serves_properties": sorted(claimed), "kind_free_text": "deterministic simulator: token-passing scheduler in a testing/synctest bubble, cooperative sync/atomic shims, simulated network with fault injection, seeded choice stream with record/replay/shrink"}],
  "checks": checks,
  "not_applicable": not_app,
- "notes": "All checks rebuild from /repo's working tree into a mktemp scratch directory that is removed afterwards. Exit 2 means build or infrastructure trouble, never a violation.",
+ "notes": "All checks rebuild from /repo's working tree into a mktemp scratch directory that is removed afterwards. Exit 2 means build or infrastructure trouble, never a violation. Known findings (genuine defects recorded, not repaired) and repaired defects are listed in /verif/known_findings.json (lists 'known' and 'fixed'); a listed known finding is printed as 'KNOWN-FINDING: property=<id> ...' and does not make a check fail; the file is never written at run time. At present one entry: C05, a call that fails on the client because its request cannot be encoded is signalled out of issue order under client pipelining (DESIGN.md section 5).",
 }
 json.dump(m, open("/verif/MANIFEST.json", "w"), indent=1)
 print("claimed", sorted(claimed), "not_applicable", [x["property_id"] for x in not_app])
